@@ -1,5 +1,6 @@
 import WrglModel.Driver.Util
 import WrglModel.Model.Sorter
+import WrglModel.Model.SorterReuse
 import WrglModel.Spec.Sorter
 import WrglModel.Gen.Facts
 open Lean
@@ -60,6 +61,78 @@ def handleC19 (op : String) (input impl : Json) : Except String Json := do
         (fldD v "spilled" Json.null).compress == (fldD mv "spilled" Json.null).compress
       else resClass impl == resClass mj)
     return reply mj agree viol
+  | "sort-reuse" =>
+    -- one sorter, several tables, `Reset` in between; an earlier use may have been abandoned with
+    -- rows unread. Every use that is read to the end must emit exactly its own table's rows (the same
+    -- clauses as for a new sorter), and after Close no spill file of any use is left
+    let runSize ← natFld input "runSize"
+    let usesJ ← arrFld input "uses"
+    let bs := Facts.blockSize
+    if resClass impl == "panic" then return reply Json.null false ["no-panic"]
+    -- the model: the state left by a use is whatever it is; the next use starts with `reset`
+    let stepM := fun (acc : Res (SorterSt × List Json)) (u : Json) =>
+      match acc with
+      | .ok (st, outs) =>
+        match (do
+          let pk ← asNatList (← fld u "pk")
+          let removed ← asNatList (fldD u "removed" (Json.arr #[]))
+          let rows ← asRows (fldD u "rows" (Json.arr #[]))
+          let use ← strFld u "use"
+          pure (pk, removed, rows, use) : Except String _) with
+        | .error e => (.err e : Res (SorterSt × List Json))
+        | .ok (pk, removed, rows, use) =>
+          match reuse (refSort pk) Facts.addRowMaxCell runSize st rows with
+          | .ok st' =>
+            let o := Json.mkObj ([("use", Json.str use), ("spilled", jNat st'.chunks.length)] ++
+              (if use == "blocks" then [("blocks", Json.arr ((sortedBlocks (refSort pk) bs pk removed st').map jOutBlock).toArray)] else []) ++
+              (if use == "rows" then
+                let rbs := sortedRows (refSort pk) bs pk removed st'
+                [("rowBlocks", Json.arr (rbs.map jRows).toArray), ("rowOffsets", jNats (List.range rbs.length))] else []))
+            -- what is left unread: nothing after a full read, everything when abandoned, all but the
+            -- first block's rows (and the read-ahead) after a cancelled read; `reset` ignores it anyway
+            let left := if use == "blocks" || use == "rows" then consume (refSort pk) pk (totalLen (st'.chunks ++ [st'.current])) st'
+                        else if use == "abandon" then st' else consume (refSort pk) pk bs st'
+            .ok (left, outs ++ [o])
+          | .err e => .err e
+          | .panic p => .panic p
+      | r => r
+    let m := usesJ.foldl stepM (.ok (SorterSt.empty, []))
+    let mj := jRes (fun (p : SorterSt × List Json) => Json.mkObj [("uses", Json.arr p.2.toArray), ("leftoverLast", jNat 0), ("leftoverEarlier", jNat 0)]) m
+    if resClass impl != "ok" then
+      return reply mj (resClass impl == resClass mj) (if resClass mj == "err" then [] else ["unexpected-error"])
+    if resClass mj != "ok" then return reply mj false []
+    let v := fldD impl "val" Json.null
+    let usesI ← arrFld v "uses"
+    let usesM ← arrFld (fldD mj "val" Json.null) "uses"
+    if usesI.length != usesJ.length then return reply mj false ["unexpected-error"]
+    let mut viol : List String := []
+    let mut agree := true
+    for (u, (o, mo)) in usesJ.zip (usesI.zip usesM) do
+      let pk ← asNatList (← fld u "pk")
+      let removed ← asNatList (fldD u "removed" (Json.arr #[]))
+      let rows ← asRows (fldD u "rows" (Json.arr #[]))
+      let use ← strFld u "use"
+      let dup := hasDupKeys pk rows
+      if (fldD o "spilled" Json.null).compress != (fldD mo "spilled" Json.null).compress then agree := false
+      if use == "blocks" then
+        let blocks ← (← arrFld o "blocks").mapM fun b => do
+          return (← natFld b "offset", ← asRow (← fld b "pk"), ← asRows (← fld b "rows"))
+        viol := viol ++ (sortVerdict bs pk removed rows (blocks.map (·.2.2))).map (fun s => "reused:blocks:" ++ s) ++
+          (if blockKeysOk bs (distinctKeys pk rows) (blocks.map (·.2.1)) then [] else ["reused:block-key-is-first-row-key"]) ++
+          (if blocks.map (·.1) == List.range blocks.length then [] else ["reused:block-offsets"])
+        if !dup && (fldD o "blocks" Json.null).compress != (fldD mo "blocks" Json.null).compress then agree := false
+      else if use == "rows" then
+        let rowBlocks ← (← arrFld o "rowBlocks").mapM asRows
+        let offs ← asNatList (fldD o "rowOffsets" (Json.arr #[]))
+        viol := viol ++ (sortVerdict bs pk removed rows rowBlocks).map (fun s => "reused:rows:" ++ s) ++
+          (if offs == List.range rowBlocks.length then [] else ["reused:block-offsets"])
+        if !dup && (fldD o "rowBlocks" Json.null).compress != (fldD mo "rowBlocks" Json.null).compress then agree := false
+      else pure ()
+    let leftLast ← intFld v "leftoverLast"
+    let leftEarlier ← intFld v "leftoverEarlier"
+    viol := viol ++ (if leftLast == 0 then [] else ["spill-files-removed"]) ++
+      (if leftEarlier == 0 then [] else ["spill-files-of-uses-before-a-reset-removed"])
+    return reply mj agree viol.eraseDups
   | "ingest-error" =>
     -- a failing ingest (malformed last record, after runs were spilled) still removes its spill files
     if resClass impl == "panic" then return reply Json.null false ["no-panic"]
